@@ -38,12 +38,32 @@ def regex_case(draw, no_diamond=False):
             prog["items"] = items
             prog["features"] = sorted(set(prog.get("features", [])) | {"separator_in_instruction"})
             arrow_at = lit
+    if prog["version"] >= 7 and draw(st.integers(0, 5)) == 0:
+        # the two forms of `replace` (with and without the start immediate) are different instructions
+        prog = dict(prog)
+        items = list(prog["items"])
+        cand = [k for k, it in enumerate(items) if it[0] == "I" and k > 0]
+        for _ in range(draw(st.integers(1, 2))):
+            if not cand:
+                break
+            k = draw(st.sampled_from(cand))
+            if draw(st.booleans()):
+                items[k:k] = [["I", "byte", ["0x0102"]], ["I", "byte", ["0x03"]], ["I", "replace", ["0"]], ["I", "pop", []]]
+            else:
+                items[k:k] = [["I", "byte", ["0x0102"]], ["I", "int", ["0"]], ["I", "byte", ["0x03"]], ["I", "replace", []], ["I", "pop", []]]
+            cand = [k for k, it in enumerate(items) if it[0] == "I" and k > 0]
+        prog["items"] = items
+        prog["features"] = sorted(set(prog.get("features", [])) | {"replace_forms"})
     g = RCFG(prog)
     labels = [nd.imm[0] for nd in g.seq if nd.op == "label" and nd.idx in g.retained]
     label = draw(st.sampled_from(labels + ["*"] * max(2, len(labels))))
     ret = [nd for nd in g.seq if nd.idx in g.retained and nd.op not in ("#pragma",)]
     n = draw(st.integers(1, 4))
     start = draw(st.integers(0, max(0, len(ret) - 1)))
+    if "replace_forms" in prog.get("features", []) and draw(st.booleans()):
+        hits = [k for k, nd in enumerate(ret) if nd.op == "replace"]
+        if hits:
+            start = max(0, draw(st.sampled_from(hits)) - draw(st.integers(0, 1)))
     if arrow_at is not None and draw(st.booleans()):
         hits = [k for k, nd in enumerate(ret) if nd.op == "byte" and arrow_at in nd.text]
         if hits:
@@ -55,6 +75,15 @@ def regex_case(draw, no_diamond=False):
         window[k] = draw(st.sampled_from(["int 424242", "txn Note", "pop", "int 1", "err"]))
     elif mode == 1:  # short repeated pattern (overlaps)
         window = [window[0]] * draw(st.integers(1, 3))
+    elif mode == 2:  # near miss: one line differs from the program text in an immediate only
+        for k, w in enumerate(window):
+            t = w.split()
+            if t[:1] == ["replace"]:
+                window[k] = "replace" if len(t) == 2 else "replace 0"
+                break
+            if t[0] in ("int", "pushint") and len(t) == 2 and t[1].isdigit():
+                window[k] = f"{t[0]} {int(t[1]) + 1}"
+                break
     return {"program": prog, "label": label, "pattern": window}
 
 
